@@ -100,6 +100,13 @@ CHECKS["C06"] = dict(
     technique="deterministic VHDL-subset legality checker over emitted text + CrossHair on backend name allocation",
     engine="E-VHDL",
 )
+CHECKS["C19"] = dict(
+    category="translation_validation",
+    text="SFixed/UFixed formats left in [-2..3], right in [-3..2], width <= 4 (quick, seeded subset of pairs) / <= 5 (thorough, all pairs): for every format pair and every style combination z3 proves for ALL raw values that + - * are exact in the result format the implementation chooses (range-checked; UFixed '-' modulo the range), resize equals floor / round-half-even followed by wrap / saturate in exact scaled-integer arithmetic (saturating cells split into in-range / above-max / below-min obligations), constructors from int, Signed, Unsigned and other formats preserve the number, equality compares represented numbers.",
+    design_ref="DESIGN.md 3/C19",
+    note="Trusted: exact scaled-integer specification in vfw/props/c19.py, VHDL-subset semantics, z3. Not covered: construction from Python floats. Known findings (resize between non-overlapping formats) are listed in known_findings.json.",
+    technique="bounded symbolic translation validation (z3) against exact scaled-integer arithmetic",
+)
 NA = {}
 manifest = {
     "version": 1,
